@@ -168,6 +168,9 @@ EXPORT char *_gets_s_chk(char *restrict dest, rsize_t dmax,
             memset(dest + len, 0, dmax - len);
 #endif
     } else {
+        /* C11: at end-of-file without characters, or on a read error,
+           dest[0] is set to the null character */
+        *dest = '\0';
         if (!feof(stdin) && errno == 0) { /* closed? */
         nospc:
             handle_error(dest, dmax, "gets_s: length exceeds dmax", ESNOSPC);
